@@ -79,7 +79,7 @@ CoreObjs(n, mode) ==
   {m, Obj(<<>>), Obj(m.entries \o <<Ent("zz", I("1"))>>)}
   \cup {Obj(m.entries \o <<Ent(fs[j].name, Null)>>) : j \in {j \in 1..Len(fs) : ~HasKey(m.entries, fs[j].name)}}
   \cup {Obj(m.entries \o <<Ent(fs[j].name, G1(fs[j].ty, mode))>>) : j \in {j \in 1..Len(fs) : ~HasKey(m.entries, fs[j].name)}}
-  \cup {Obj(<<Ent(fs[j].name, x)>>) : j \in {j \in 1..Len(fs) : HasKey(m.entries, fs[j].name)}, x \in Wrong(Base(fs[j].ty), mode) \cup {Null}}
+  \cup UNION {{Obj(<<Ent(fs[j].name, x)>>) : x \in Wrong(Base(fs[j].ty), mode) \cup {Null}} : j \in {j \in 1..Len(fs) : HasKey(m.entries, fs[j].name)}}
 FieldChoices(f, deep) ==
   LET n == Base(f.ty) IN
   {Absent, Null}
